@@ -108,7 +108,8 @@ theorem C04_consumers_read_stored_result (P : Program) (s : St) (n : Node) (kw :
 
 /-! Non-vacuity: the initial state is reachable and satisfies the invariant with equality possible after
 one execution (see the lock-step corpus for reachable states with `invCount = hideCount + 1`). -/
-example : Reach ⟨⟨[0], [], fun _ => {}, 0, 0⟩, fun _ => {}, fun _ _ _ _ => .ret .none, fun _ _ => .none, [], true⟩ init :=
+example : Reach { g := ⟨[0], [], fun _ => {}, 0, 0⟩, cfg := fun _ => {}, body := fun _ _ _ _ => .ret .none,
+                  dflt := fun _ _ => .none, inputKw := [] } init :=
   .init
 
 end MLPE.Eng
